@@ -21,7 +21,7 @@ func (c06) Gen(r *simrt.Rand, idx int, tier string) *Case {
 	g := DefaultGen()
 	g.TieWeights = r.P(0.5)
 	c := &Case{}
-	subs := []string{"balance", "balance-ties", "balance-valued", "print", "checkwrite", "transcode", "weights", "returns", "infer", "import", "price-conflict", "price-paths"}
+	subs := []string{"balance", "balance-ties", "balance-valued", "print", "checkwrite", "transcode", "weights", "returns", "infer", "import", "price-conflict", "price-paths", "register"}
 	c.Sub = subs[idx%len(subs)]
 	switch c.Sub {
 	case "balance-ties":
@@ -135,6 +135,18 @@ func (c06) Gen(r *simrt.Rand, idx int, tier string) *Case {
 		cs := c.J.Commodities()
 		if len(cs) > 0 {
 			c.Args = []string{"-v", cs[0]}
+		}
+	case "register":
+		c.Cmd = "register"
+		_, max, _ := c.J.TxnSpan()
+		c.Args = []string{"--color=false", "--to", max.String()}
+		if r.P(0.5) {
+			c.Args = append(c.Args, []string{"--months", "--weeks", "--years"}[r.Intn(3)])
+		}
+		for _, fl := range []string{"-d", "-a", "-c", "-s"} {
+			if r.P(0.5) {
+				c.Args = append(c.Args, fl)
+			}
 		}
 	case "weights", "returns":
 		c.Cmd = "portfolio " + c.Sub
@@ -270,7 +282,6 @@ func noteVacuous(sub string, o *Out) {
 	}
 	Extra["vacuous:"+sub+":"+o.Outcome+":"+line]++
 }
-
 
 // genTieCase builds journals in which sibling accounts have exactly equal
 // totals that are reached by different sums of fractional amounts (so that any
